@@ -239,7 +239,47 @@ pub fn exec(s: &mut CrdtSession, toks: &[&str]) -> Vec<String> {
         }
         // C03 direct oracle: a call that returns an error changes nothing
         let before = s.replicas.get(toks[1]).map(|d| (show_doc(d, None, enc), d.pending_ops()));
+        let len_before = s.replicas.get(toks[1]).map(|d| d.length(parse_exid(toks[2]))).unwrap_or(0);
         let mut res = exec_inner(s, toks, enc);
+        // C03 direct oracles: the documented sequential effect, read back through the public API
+        if res.get(0).map(|x| x.starts_with("ok")).unwrap_or(false) {
+            if let Some(d) = s.replicas.get(toks[1]) {
+                let obj = parse_exid(toks[2]);
+                let oty = d.object_type(&obj).ok();
+                let scalar_eq = |got: &Value<'_>, want: &ScalarValue| -> bool {
+                    match got { Value::Scalar(g) => show_scalar(g.as_ref()) == show_scalar(want), _ => false }
+                };
+                match toks[0] {
+                    "crdt.put" => {
+                        let want = parse_scalar(toks[4]);
+                        let all = d.get_all(&obj, prop_of(toks[3])).unwrap_or_default();
+                        if !(all.len() == 1 && scalar_eq(&all[0].0, &want)) {
+                            res.push(format!("! C03 sig=put-postcondition after put({}, {}, {}) the register holds {} value(s) and not exactly the value put", toks[2], toks[3], toks[4], all.len()));
+                        }
+                    }
+                    "crdt.putobj" => {
+                        let all = d.get_all(&obj, prop_of(toks[3])).unwrap_or_default();
+                        let ok = all.len() == 1 && matches!(all[0].0, Value::Object(t) if t == parse_objtype(toks[4])) && d.length(&all[0].1) == 0;
+                        if !ok { res.push(format!("! C03 sig=put_object-postcondition after put_object({}, {}) the register does not hold exactly one new empty {} object", toks[2], toks[3], toks[4])); }
+                    }
+                    "crdt.ins" if oty == Some(ObjType::List) => {
+                        let idx: usize = toks[3].parse().unwrap();
+                        let want = parse_scalar(toks[4]);
+                        let all = d.get_all(&obj, idx).unwrap_or_default();
+                        if d.length(&obj) != len_before + 1 || !(all.len() == 1 && scalar_eq(&all[0].0, &want)) {
+                            res.push(format!("! C03 sig=insert-postcondition after insert({}, {}, {}) length went {} -> {} / the element at the index is not the inserted value", toks[2], toks[3], toks[4], len_before, d.length(&obj)));
+                        }
+                    }
+                    "crdt.del" if toks[3].starts_with('m') && matches!(oty, Some(ObjType::Map)) => {
+                        if !d.get_all(&obj, prop_of(toks[3])).unwrap_or_default().is_empty() { res.push(format!("! C03 sig=delete-postcondition after delete({}, {}) the key still has a value", toks[2], toks[3])); }
+                    }
+                    "crdt.del" if toks[3].starts_with('i') && oty == Some(ObjType::List) => {
+                        if d.length(&obj) + 1 != len_before { res.push(format!("! C03 sig=delete-postcondition after delete({}, {}) the list length went {} -> {}", toks[2], toks[3], len_before, d.length(&obj))); }
+                    }
+                    _ => {}
+                }
+            }
+        }
         if res.get(0).map(|x| x.starts_with("err")).unwrap_or(false) {
             let after = s.replicas.get(toks[1]).map(|d| (show_doc(d, None, enc), d.pending_ops()));
             if before != after { res.push(format!("! C03 sig=error-changed-state {} returned {} but changed the document or its pending ops", toks[0], res[0])); }
@@ -437,7 +477,15 @@ fn exec_inner(s: &mut CrdtSession, toks: &[&str], enc: TextEncoding) -> Vec<Stri
                     let o = s.offered.get(toks[1]).cloned().unwrap_or_default();
                     s.offered.insert(toks[2].to_string(), o);
                 }
-                Err(e) => { res.push("err".to_string()); res.push(format!("! C11 sig=load-failed load(save(doc)) failed: {}", e)); }
+                Err(e) => {
+                    res.push("err".to_string());
+                    res.push(format!("! C11 sig=load-failed load(save(doc)) failed: {}", e));
+                    // C06 last sentence / C38: no sequence of calls leaves an unsaveable document
+                    res.push(format!("! C06 sig=unsaveable-document load(save(doc)) failed: {}", e));
+                    if matches!(e, automerge::AutomergeError::DuplicateSeqNumber(..)) {
+                        res.push(format!("! C38 sig=duplicate-seq-in-save the saved document holds two changes with one (actor, seq): {}", e));
+                    }
+                }
             }
             res
         }
@@ -478,7 +526,11 @@ fn exec_inner(s: &mut CrdtSession, toks: &[&str], enc: TextEncoding) -> Vec<Stri
                     } else {
                         let full = exp.last().map(|x| x.1.clone()).unwrap_or_default();
                         if digest != full { res.push(format!("! C14 sig=different-doc bit {} flipped: load succeeded with a DIFFERENT document", n)); }
-                        else { res.push(format!("! C14 sig=accepted-equal bit {} flipped: load succeeded (equal document)", n)); }
+                        else {
+                            // D12: a flipped DEFLATE padding / don't-care bit inside a COMPRESSED change chunk inflates to the same bytes
+                            let in_compressed = chunk_bounds(&file).iter().any(|(ty, _, st, en)| *ty == 2 && n / 8 >= *st && n / 8 < *en);
+                            res.push(format!("! C14 sig={} bit {} flipped: load succeeded (equal document)", if in_compressed { "accepted-equal-compressed-chunk" } else { "accepted-equal" }, n));
+                        }
                     }
                     s.replicas.insert(toks[1].to_string(), d);
                     res
@@ -605,6 +657,10 @@ fn observe(sess: &mut Session, out: &mut Out, names: &[String]) {
     for n in names {
         let res = exec_line(sess, &format!("crdt.state {}", n), out);
         let d = sess.crdt.replicas.get_mut(n).unwrap();
+        // C38 direct oracle: (actor, seq) pairs of the applied changes are pairwise distinct
+        let mut pairs: Vec<(Vec<u8>, u64)> = d.get_changes(&[]).iter().map(|c| (c.actor_id().to_bytes().to_vec(), c.seq())).collect();
+        let total = pairs.len(); pairs.sort(); pairs.dedup();
+        if pairs.len() != total { out.count("oracle_failures"); out.line(&format!("! C38 sig=duplicate-seq-applied replica {} holds two applied changes with the same (actor, seq)", n)); }
         let mut hs: Vec<String> = d.get_changes(&[]).iter().map(|c| hex::encode(c.hash().0)).collect();
         hs.sort();
         let key = hs.join(",");
@@ -617,7 +673,72 @@ fn observe(sess: &mut Session, out: &mut Out, names: &[String]) {
     }
 }
 
+/// focused histories: three replicas fight over ONE map key and ONE list element with counters and
+/// non-counters, increments naming conflicted registers, deletes; changes travel in batches
+pub fn generate_focus(r: &mut Rng, sess: &mut Session, out: &mut Out) {
+    out.count("focus_cases");
+    let mut actors: Vec<Vec<u8>> = (0..3).map(|i| vec![0x20 + 0x30 * i as u8 + r.below(8) as u8]).collect();
+    if r.chance(1, 2) { actors.reverse(); }
+    exec_line(sess, &format!("crdt.new r0 cp {}", hex::encode(&actors[0])), out);
+    let res = exec_line(sess, "crdt.putobj r0 _ m6c L", out);
+    let list = res[0].strip_prefix("ok ").unwrap_or("_").to_string();
+    exec_line(sess, &format!("crdt.ins r0 {} 0 c5", list), out);
+    exec_line(sess, &format!("crdt.ins r0 {} 1 s78", list), out);
+    exec_line(sess, "crdt.put r0 _ m61 c1", out);
+    let mut all: Vec<String> = vec![];
+    let mut commit = |sess: &mut Session, out: &mut Out, who: &str, all: &mut Vec<String>| {
+        let res = exec_line(sess, &format!("crdt.commit {}", who), out);
+        if res[0] == "ok" {
+            let hh = ChangeHash::try_from(unhx(res[1].strip_prefix("#hash ").unwrap()).as_slice()).unwrap();
+            let c = sess.crdt.replicas.get_mut(who).unwrap().get_change_by_hash(&hh).unwrap();
+            exec_line(sess, &def_line(&c), out);
+            exec_line(sess, &format!("crdt.local {} {}", who, hex::encode(hh.0)), out);
+            all.push(hex::encode(hh.0));
+        }
+    };
+    commit(sess, out, "r0", &mut all);
+    exec_line(sess, &format!("crdt.fork r0 r1 {}", hex::encode(&actors[1])), out);
+    exec_line(sess, &format!("crdt.fork r0 r2 {}", hex::encode(&actors[2])), out);
+    let names = ["r0".to_string(), "r1".to_string(), "r2".to_string()];
+    let vals = ["c3", "c7", "i4", "s79", "n", "b1"];
+    for _round in 0..r.range(3, 7) {
+        // every replica makes one or two edits on the contested registers
+        for who in names.iter() {
+            if r.chance(1, 4) { continue; }
+            for _ in 0..r.range(1, 2) {
+                let len = sess.crdt.replicas.get(who).unwrap().length(parse_exid(&list)) as u64;
+                let line = match r.below(8) {
+                    0 | 1 => format!("crdt.put {} _ m61 {}", who, vals[r.below(6) as usize]),
+                    2 | 3 if len > 0 => format!("crdt.put {} {} i{} {}", who, list, r.below(len.min(2)), vals[r.below(6) as usize]),
+                    4 => format!("crdt.inc {} _ m61 {}", who, r.range(1, 3)),
+                    5 if len > 0 => format!("crdt.inc {} {} i{} {}", who, list, r.below(len.min(2)), r.range(1, 3)),
+                    6 => if r.chance(1, 2) || len == 0 { format!("crdt.del {} _ m61", who) } else { format!("crdt.del {} {} i{}", who, list, r.below(len)) },
+                    _ => format!("crdt.ins {} {} {} {}", who, list, r.below(len + 1), vals[r.below(6) as usize]),
+                };
+                exec_line(sess, &line, out);
+            }
+            commit(sess, out, who, &mut all);
+        }
+        // batched deliveries: a replica receives a random multi-change subset in ONE call
+        for who in names.iter() {
+            if all.is_empty() || r.chance(1, 3) { continue; }
+            let mut pick: Vec<String> = all.iter().filter(|_| r.chance(2, 3)).cloned().collect();
+            for i in (1..pick.len()).rev() { let j = r.below(i as u64 + 1) as usize; pick.swap(i, j); }
+            if pick.is_empty() { continue; }
+            let via = if r.chance(1, 4) { "crdt.loadinc" } else { "crdt.apply" };
+            exec_line(sess, &format!("{} {} {}", via, who, pick.join(",")), out);
+            exec_line(sess, &format!("crdt.state {}", who), out);
+        }
+    }
+    let names_v: Vec<String> = names.to_vec();
+    for n in names.iter() { exec_line(sess, &format!("crdt.apply {} {}", n, all.join(",")), out); }
+    observe(sess, out, &names_v);
+    exec_line(sess, "crdt.saveload r1 l 0", out);
+    exec_line(sess, "crdt.state l", out);
+}
+
 pub fn generate(r: &mut Rng, _opts: &BTreeMap<String, String>, sess: &mut Session, out: &mut Out) {
+    if r.chance(1, 3) { return generate_focus(r, sess, out); }
     let encs = ["cp", "utf8", "utf16"];
     let enc = encs[r.below(3) as usize];
     let nrep = r.range(2, 3) as usize;
@@ -668,6 +789,7 @@ pub fn generate(r: &mut Rng, _opts: &BTreeMap<String, String>, sess: &mut Sessio
         }
         if r.chance(1, 3) { observe(sess, out, &names); }
         if r.chance(1, 2) { exec_line(sess, &format!("crdt.expect {}", who), out); }
+        if r.chance(1, 5) { exec_line(sess, &format!("crdt.saveload {} scratch {}", who, r.below(2)), out); out.count("mid_history_saveload"); }
     }
     // a late joiner: a fresh replica that receives everything one change at a time in random order,
     // through apply_changes and load_incremental alike (it holds changes back from the first delivery on)
@@ -869,8 +991,35 @@ pub fn generate_storage(r: &mut Rng, opts: &BTreeMap<String, String>, sess: &mut
     for p in 0..pieces {
         let ntx = if p == 0 { r.range(0, 8) } else { r.range(1, 3) };
         for _ in 0..ntx { local_tx(r, sess, out, "w", &mut known, &mut all); }
+        // sometimes a big text edit so that the change exceeds DEFLATE_MIN_SIZE and has a compressed form
+        if p > 0 && r.chance(1, 2) {
+            let res = exec_line(sess, &format!("crdt.putobj w _ m{} T", hex::encode(format!("big{}", p))), out);
+            if let Some(id) = res[0].strip_prefix("ok ") {
+                let txt: String = (0..r.range(300, 700)).map(|i| (b'a' + ((i * 7 + p * 3) % 26) as u8) as char).collect();
+                exec_line(sess, &format!("crdt.splice w {} 0 0 {}", id, hx(txt.as_bytes())), out);
+                let res = exec_line(sess, "crdt.commit w", out);
+                if res[0] == "ok" {
+                    let hh = ChangeHash::try_from(unhx(res[1].strip_prefix("#hash ").unwrap()).as_slice()).unwrap();
+                    let c = sess.crdt.replicas.get_mut("w").unwrap().get_change_by_hash(&hh).unwrap();
+                    exec_line(sess, &def_line(&c), out);
+                    exec_line(sess, &format!("crdt.local w {}", hex::encode(hh.0)), out);
+                    all.push(hex::encode(hh.0));
+                }
+            }
+        }
         let d = sess.crdt.replicas.get_mut("w").unwrap();
-        let bytes = if p == 0 {
+        let compressed_piece = p > 0 && r.chance(1, 2);
+        let bytes = if compressed_piece {
+            // the incremental piece written with Change::bytes(): compressed chunks for big changes
+            let raw = d.save_incremental();
+            let mut outb = vec![];
+            for (_, h, _, _) in chunk_bounds(&raw) {
+                let hh = ChangeHash::try_from(h.as_slice()).unwrap();
+                if let Some(mut c) = d.get_change_by_hash(&hh) { outb.extend(c.bytes().as_ref()); }
+            }
+            out.count("piece_compressed_form");
+            outb
+        } else if p == 0 {
             let b = d.save_with_options(automerge::SaveOptions { deflate, retain_orphans: true });
             let _ = d.save_incremental(); // move the incremental cursor to now
             b
